@@ -787,6 +787,7 @@ pub fn run_block(seed: u64, first: u64, count: u64, tier: Tier) -> Result<BlockR
         let est = prep.seq_events * 2 + 8;
         let mut escalate = false;
         let mut found: Option<(Violation, Vec<u32>)> = None;
+        let mut sample_trace: Option<Value> = None;
         let mut k = 0;
         let mut budget = per_program;
         while k < budget {
@@ -806,6 +807,13 @@ pub fn run_block(seed: u64, first: u64, count: u64, tier: Tier) -> Result<BlockR
             br.bump("files_not_started_because_of_break", m.files_skipped_by_break);
             br.counters.entry("max_steps_seen".into()).and_modify(|v| *v = (*v).max(ex.choices.len() as u64)).or_insert(ex.choices.len() as u64);
             digest.push(m.trace_hash);
+            if sample_trace.is_none() && m.thread_switches >= 2 {
+                sample_trace = Some(json!({
+                    "strategy": sname,
+                    "schedule": ex.choices,
+                    "first_events": ex.log.iter().take(40).map(|e| format!("{e:?}")).collect::<Vec<_>>(),
+                }));
+            }
             if m.thread_switches >= 1 {
                 br.distinct.push(mix(&[hash_str(&prep.program), m.trace_hash]));
             }
@@ -828,8 +836,8 @@ pub fn run_block(seed: u64, first: u64, count: u64, tier: Tier) -> Result<BlockR
             k += 1;
         }
         br.digests.push(mix(&digest));
-        if index < 2 && br.samples.is_empty() {
-            br.samples.push(json!({"run_index": index, "expression": w.expr, "threads": w.threads, "partition": w.partition, "files": w.files.iter().map(|f| f.rel_path.clone()).collect::<Vec<_>>(), "max_chunks": w.max_chunks, "program": prep.program}));
+        if br.samples.is_empty() && w.expr.len() < 200 && sample_trace.is_some() {
+            br.samples.push(json!({"run_index": index, "expression": w.expr, "threads": w.threads, "partition": w.partition, "files": w.files.iter().map(|f| f.rel_path.clone()).collect::<Vec<_>>(), "max_chunks": w.max_chunks, "program": prep.program, "one_execution": sample_trace}));
         }
         if let Some((v, choices)) = found {
             br.violation = Some(violation_json(index, &w, &v, &choices, &prep.program));
